@@ -121,6 +121,16 @@ func genC09World(r *lib.Rng) *c09World {
 	}
 	w.user = "user.lua"
 	w.files[w.user] = strings.Join(u, "\n") + "\n"
+	// a local table whose members end at different columns (its outline range is a maximum over a map), and a
+	// table with more members than a hover previews (which ones are shown must not depend on map order)
+	w.files["tbl.lua"] = "local M = {}\n\nfunction M.short(x) return x end\n\nfunction M.longer(a, b)\n  local s = a + b\n  return s\nend\n\nM.cfg = {\n  verbose_output_flag = true,\n  n = 1,\n}\n\nreturn M\n"
+	var big []string
+	big = append(big, "local Big = {")
+	for k := 0; k < 40; k++ {
+		big = append(big, fmt.Sprintf("  field_%02d = %d,", k, k))
+	}
+	big = append(big, "}", "print(Big)")
+	w.files["big.lua"] = strings.Join(big, "\n") + "\n"
 	return w
 }
 
@@ -220,13 +230,28 @@ func c09Observe(dir string, w *c09World, order []string) (map[string]string, err
 	}
 	sort.Strings(sl)
 	obs["wssym"] = strings.Join(sl, " ")
+	if tsyms, err := sess.DocumentSymbol("tbl.lua"); err == nil {
+		var flat []flatSym
+		flattenSyms(tsyms, &flat)
+		var l []string
+		for _, y := range flat {
+			l = append(l, y.raw+"@"+locOfRange(y.rg)+"/"+locOfRange(y.sel))
+		}
+		sort.Strings(l)
+		obs["docsym:tbl.lua"] = strings.Join(l, " ")
+	}
+	sess.DidOpen("big.lua", w.files["big.lua"])
+	sess.Sync()
+	if hov, err := sess.Hover("big.lua", 42, 7); err == nil {
+		obs["hover:Big"] = hov
+	}
 	syms, err := sess.DocumentSymbol(w.user)
 	if err == nil {
 		var flat []flatSym
 		flattenSyms(syms, &flat)
 		var l []string
 		for _, y := range flat {
-			l = append(l, y.raw)
+			l = append(l, y.raw+"@"+locOfRange(y.rg)+"/"+locOfRange(y.sel))
 		}
 		sort.Strings(l)
 		obs["docsym"] = strings.Join(l, " ")
